@@ -1,0 +1,63 @@
+//! Observation hooks for the deterministic simulator. Compiled only with `--cfg cached_verif`;
+//! with the flag off this file is not part of the crate.
+//!
+//! `emit` hands an `Event` to a sink installed by the simulation harness on the current OS thread
+//! (the simulator runs every simulated thread on one OS thread). Without a sink it does nothing.
+use std::cell::RefCell;
+use std::time::SystemTime;
+
+use crate::cache::command::CommandStatus;
+
+#[derive(Clone, Debug, PartialEq)]
+pub enum Event {
+    /// The command worker took a command off the queue. `ack` is the address of its acknowledgement,
+    /// `id` the key id for `Put` / `PutWithTTL` / `UpdateWeight` (0 otherwise).
+    ApplyBegin { ack: usize, kind: String, id: u64 },
+    /// The worker finished executing the command (before acknowledging it).
+    ApplyEnd { ack: usize, status: CommandStatus },
+    /// `done()` returned for this acknowledgement.
+    Acked { ack: usize },
+    /// A command found queued behind `Shutdown` was answered with `ShuttingDown`.
+    Drained { ack: usize },
+    /// `maybe_add` looked at the free space for an incoming key.
+    AdmissionBegin { id: u64, hash: u64, weight: i64, max_weight: i64, space_left: i64, fits: bool },
+    /// `create_space` started: estimate of the incoming key.
+    CreateSpace { id: u64, incoming_estimate: u8 },
+    /// One iteration of the eviction loop: the sample (id, weight, estimate) before taking the
+    /// victim, the victim taken, and the space available at that point.
+    Victim { sample: Vec<(u64, i64, u8)>, victim: (u64, i64, u8), space_available: i64 },
+    /// The victim of the preceding `Victim` event was evicted.
+    Evicted { id: u64 },
+    /// The sample ran dry inside the eviction loop.
+    SampleEmpty,
+    /// The access consumer applied one buffer to the sketch.
+    BatchApplied { hashes: Vec<u64> },
+    /// The sweeper woke up for a tick.
+    SweepBegin { now: SystemTime, shard: usize },
+    /// The sweeper found an expired entry and ran the evict hook for it.
+    SweepExpired { id: u64, expiry: SystemTime },
+    /// The sweeper finished this tick.
+    SweepDone,
+}
+
+thread_local! {
+    static SINK: RefCell<Option<Box<dyn FnMut(Event)>>> = RefCell::new(None);
+}
+
+pub fn install(sink: Box<dyn FnMut(Event)>) {
+    SINK.with(|s| *s.borrow_mut() = Some(sink));
+}
+
+pub fn uninstall() {
+    SINK.with(|s| *s.borrow_mut() = None);
+}
+
+pub fn emit(event: Event) {
+    SINK.with(|s| {
+        if let Ok(mut guard) = s.try_borrow_mut() {
+            if let Some(sink) = guard.as_mut() {
+                sink(event);
+            }
+        }
+    });
+}
